@@ -146,11 +146,7 @@ func c14GenLiteral(r *rng) (tok, text, kind string) {
 		case 1:
 			return "CHAR", "'" + c14Runes[r.intn(len(c14Runes))] + "'", "char-utf8"
 		}
-		e := c14Escape(r, '\'')
-		for strings.HasPrefix(e, `\x`) && false {
-			e = c14Escape(r, '\'')
-		}
-		return "CHAR", "'" + e + "'", "char-escape"
+		return "CHAR", "'" + c14Escape(r, '\'') + "'", "char-escape"
 	case 11, 12:
 		var b strings.Builder
 		b.WriteByte('"')
